@@ -26,6 +26,7 @@ macro_rules
       | exact ($hK).cntGt (by simpa [F2.kept, F2.clearNext, Cmd.wCount, Cmd.wRemote, Cmd.wCurrent] using hf)
       | exact ($hK).polGt (by simpa [F2.kept, F2.clearNext, Cmd.wPolicy, Cmd.wRemote, Cmd.wCurrent] using hf)
       | exact ($hK).fresh (by simpa [F2.kept, F2.clearNext, Cmd.wPolicy, Cmd.wHist] using hf)
+      | exact ($hK).histLe (by simpa [F2.kept, F2.clearNext, Cmd.wPolicy, Cmd.wHist] using hf)
       | exact ($hK).wOk (by simpa [F2.kept, F2.clearNext, Cmd.wStaged, Cmd.wPolicy] using hf)
       | exact ($hK).sOk (by simpa [F2.kept, F2.clearNext, Cmd.wStaged, Cmd.wPolicy] using hf)
       | exact ($hK).hPol (by simpa [F2.kept, F2.clearNext, Cmd.wHead, Cmd.wPolicy] using hf)
